@@ -436,6 +436,30 @@ ROTTEN_MANAGERS = {
 }
 
 
+_PURE_MOVES = ("tab", "carriage_return", "move_cursor", "save_cursor", "restore_cursor")
+
+
+def rule_moves_do_not_write(ctx: Ctx) -> RuleResult:
+    """'screen contents ... equal those of a VT100-style terminal fed the same bytes': HT, CR, the cursor-addressing
+    sequences and DECSC / DECRC move the cursor and change no cell.  The functions that implement them (a confirmed
+    list) call none of the cell writers - set_char, push_char, erase, insert / remove of characters or lines, blank
+    lines - directly.  Before fix 8ed1786 tab() called set_char(b' ') at the unchanged cursor on every step:
+    'ab\\r\\t' blanked the 'a'."""
+    p = ctx.p
+    rr = RuleResult("WRITER", "C15.28", "the pure cursor movements of TermCanvas (tab, carriage return, cursor addressing, save / restore) call no cell writer", floor=5)
+    writers = {"set_char", "push_char", "erase", "insert_chars", "remove_chars", "insert_lines", "remove_lines", "empty_line", "empty_char", "clear", "blank_line", "scroll"}
+    tc = p.cls(f"{VT}.TermCanvas")
+    for name in _PURE_MOVES:
+        fi = tc.methods.get(name)
+        if fi is None:
+            raise AnalysisError(f"TermCanvas.{name} not found (pure-movement table)")
+        hits = [c for c in fi.own_nodes() if isinstance(c, ast.Call) and isinstance(c.func, ast.Attribute) and c.func.attr in writers and isinstance(c.func.value, ast.Name) and c.func.value.id == fi.self_name]
+        rr.inst(name, True, {"function": name, "cell_writers_called": [norm(c, 30) for c in hits]})
+        for c in hits:
+            rr.add(finding("WRITER", fi, c, f"{name}() is a pure cursor movement but calls `{norm(c, 40)}`: a cell changes although the byte sequence only moves the cursor - the screen differs from a VT100 fed the same bytes", construct=f"{name}: cell writer {c.func.attr} in a pure movement"))
+    return rr
+
+
 def rule_scroll_mirror(ctx: Ctx) -> RuleResult:
     """scroll() moves the rows of the scrolling region by one: it removes the row at one margin and inserts a blank
     row at the other, so every row outside the region keeps its place.  Both arms (forward, reverse) pop at a region
@@ -988,6 +1012,7 @@ def run(ctx: Ctx):
         alias.run_shallow_copy(p, "C15.25", [VT], floor=1),
         rule_snapshot_stays_snapshot(ctx),
         rule_scroll_mirror(ctx),
+        rule_moves_do_not_write(ctx),
     ]
     return out
 
@@ -996,6 +1021,7 @@ from ..mutants import Mut  # noqa: E402
 
 _V = "urwid/vterm.py"
 MUTANTS = [
+    Mut("tab-blanks-the-cursor-cell", "urwid/vterm.py", "TermCanvas.tab", "        while x < self.width - 1:\n            x += 1\n", "        while x < self.width - 1:\n            self.set_char(b\" \")\n            x += 1\n", "WRITER|vterm.TermCanvas.tab|tab: cell writer set_char in a pure movement"),
     Mut("charset-designation-in-place", _V, "TermCharset.define", "        self._g = [*self._g[:g], charset, *self._g[g + 1 :]]\n", "        self._g[g] = charset\n", "ALIAS|vterm.TermCharset.define|TermCharset: container edited in place although instances are shallow-copied"),
     Mut("scrollback-cursor-closed-bound", _V, "TermCanvas.set_term_cursor", "self.scrolling_up < self.height - y:", "y + self.scrolling_up <= self.height:", "POSBOUND|vterm.TermCanvas.set_term_cursor|canvas cursor row not shown inside the canvas"),
     Mut("twin-scrollback-cursor-sum-form", _V, "TermCanvas.set_term_cursor", "self.scrolling_up < self.height - y:", "y + self.scrolling_up < self.height:", twin=True),
